@@ -42,7 +42,7 @@ OBLIGATIONS += [
 
 def tx(name, entry, title, **kw):
     d = {"id": "C14." + name, "harness": "harness/C14/text.c", "entry": entry, "units": ["base64.c", "hex.c", "pem.c"], "mem_stubs": False,
-         "unwind": 90, "timeout": 900, "title": title}
+         "unwind": 100, "timeout": 900, "title": title}
     d.update(kw)
     return d
 OBLIGATIONS += [
